@@ -112,6 +112,7 @@ class AdapterModel:
         for bb, t, fn in b.calls():
             if fn and not b.is_cleanup(bb) and re.search(RE_STREAM_POLL_NEXT, fn["def"]) and callee_body(ctx.facts, fn) is not None:
                 self.inner[bb] = t
+        self.followers = self._follower_fields()
         self.pushes = {}
         ins = R.insert_fn
         for bb, t, fn in b.calls():
@@ -150,6 +151,11 @@ class AdapterModel:
                 continue
             lv = deep_leaves(ctx, b, cond, 4)
             reads_counter = counter is not None and ("field", counter) in lv
+            if not reads_counter:
+                import c04
+                if c04.reads_window(ctx, b, cond):
+                    reads_counter = True      # running + parked as the distance of the position counters
+                    ctx._window_form_used = True
             reads_cap = any(x[0] == "call" and re.search(r"core::slice::<impl \[T\]>::len$|::capacity$", x[1] or "") for x in lv) or \
                 ("field", "." + slots_field) in lv
             if not (reads_counter and reads_cap):
@@ -185,6 +191,68 @@ class AdapterModel:
                         if ".stream" in arg:
                             gone = lab[2] if lab[1][1].endswith("is_none") else (not lab[2])
                             self.tails.setdefault(sb, {})[tgt] = gone
+
+    def _follower_fields(self):
+        """Option-typed fields X of the adapter that are emptied only together with the upstream (`stream.set(None); *f = None`):
+        every store of None into X lies on paths that also clear the stream, nothing else in the crate stores into X, and the
+        constructor fills both.  Then X == None implies stream == None, so "X is absent" is read like "the stream is absent"."""
+        b, fl = self.b, self.fl
+        cand = {}
+        for (bb, i, st) in fl.stores:
+            if i == "term" or b.is_cleanup(bb):
+                continue
+            pe = fl.place_expr(st["place"])
+            if pe[0] == "proj" and len(pe[2]) >= 1 and pe[2][0].startswith(".") and pe[2][0] != ".stream" and \
+                    strip_refs(pe[1])[0] == "call" and (strip_refs(pe[1])[1] or "").endswith("::project"):
+                v = fl.rvalue_expr(st["rv"], bb)
+                cand.setdefault(pe[2][0], []).append((bb, v[0] == "agg" and v[1].endswith("Option::None")))
+        out = set()
+        if not cand or not self.setnone:
+            return out
+        paths = [p for k, p, kn in sensitive_paths(b, fl, 2) if k == "return"]
+        for fld, sites in cand.items():
+            ok = all(isnone for _, isnone in sites)
+            for sb, _ in sites:
+                for p in paths:
+                    if sb in p and not any(x in p for x in self.setnone):
+                        ok = False
+            # nothing else in the crate writes the field (the pin-projection only borrows it)
+            if ok and self.struct:
+                for ob in self.ctx.facts.fn_bodies():
+                    if ob is b or self.struct.split("::")[-1] not in ob.path:
+                        continue
+                    ofl = self.ctx.flow(ob)
+                    for (bb2, i2, st2) in ofl.stores:
+                        if i2 != "term" and fld in repr(ofl.place_expr(st2["place"])):
+                            ok = False
+            # the constructor fills it (Some(..)) wherever it builds the adapter
+            if ok and self.struct:
+                from lib_inter import returned_exprs
+                built = 0
+                for ob in self.ctx.facts.fn_bodies():
+                    for rb, e in returned_exprs(self.ctx, ob):
+                        if e[0] == "agg" and e[1].startswith(self.struct + "::") and len(e) > 3 and fld[1:] in e[3]:
+                            built += 1
+                            v = e[2][list(e[3]).index(fld[1:])]
+                            if not (v[0] == "agg" and v[1].endswith("Option::Some")):
+                                ok = False
+                ok = ok and built >= 1
+            if ok:
+                out.add(fld)
+        return out
+
+    def _opt_probe(self, lab):
+        """The switched value is Option::as_pin_mut of the stream field ("stream") or an Option probe of a follower field."""
+        e = strip_refs(lab[1])
+        if e[0] == "call" and re.search(r"Option::<.*>::as_pin_mut$", e[1] or ""):
+            return "stream"
+        if e[0] == "call" and re.search(r"Option::<.*>::(as_mut|as_ref|as_deref_mut|as_deref)$", e[1] or "") and e[2]:
+            a = strip_refs(e[2][0])
+            while a[0] == "proj" and a[2] and a[2][-1] == "*":
+                a = ("proj", a[1], a[2][:-1]) if len(a[2]) > 1 else strip_refs(a[1])
+            if a[0] == "proj" and a[2] and a[2][0] in self.followers:
+                return "follower"
+        return None
 
     def _counter_field(self):
         """The slot map's occupied counter: the field INSERT increments by one."""
@@ -246,12 +314,16 @@ class AdapterModel:
                 # as_pin_mut None arm
                 for labs in [self.fl.edge_labels(bb).get(nxt, [])]:
                     for lab in labs:
-                        if lab[0] in ("variant",) and place_str(lab[3]) in self.aspin.values() and lab[2] == "None":
+                        probe = "stream" if (lab[0] in ("variant", "notvariants") and place_str(lab[3]) in self.aspin.values()) else \
+                            (self._opt_probe(lab) if lab[0] in ("variant", "notvariants") else None)
+                        if probe is None:
+                            continue
+                        if lab[0] in ("variant",) and lab[2] == "None":
                             ev.append(("ABSENT", bb))
-                        if lab[0] == "notvariants" and place_str(lab[3]) in self.aspin.values() and "Some" in lab[2]:
+                        if lab[0] == "notvariants" and "Some" in lab[2]:
                             ev.append(("ABSENT", bb))
                         if (lab[0] == "variant" and lab[2] == "Some" or lab[0] == "notvariants" and "None" in lab[2]) \
-                                and place_str(lab[3]) in self.aspin.values():
+                                and probe == "stream":
                             ev.append(("PRESENT", bb))
             if bb in self.up_sites:
                 dest = place_str(self.up_sites[bb]["dest"])
